@@ -1,5 +1,15 @@
-(* C07 — tie between the Python text of `_sequence_log_probs_tensor` / `_lens_from_eos` and
-   PV.C07.Model, checked by the kernel. *)
+(* C07 - tie between the Python text of `_sequence_log_probs_tensor` (_decoding.py) / `_lens_from_eos`
+   (_string.py) and PV.C07.Model, checked by the kernel.  PV.Gen.C07Src.slp_tensor_body and
+   PV.Gen.C07LensSrc.lens_from_eos_body are the MiniPy terms harness/py2coq/translate.py regenerates from
+   /repo on every run; PV.MiniPy.Interp is their semantics; the torch calls mean what PV.MiniTorch.OpsC07
+   says (through SrcRun.ext07), log_softmax is an oracle.  The lemmas below say: for EVERY input on the
+   (outer, time, inner) normal form - hyp (A x T x B), logits (A x T x B x V), dim = 1 or -2, any eos, any
+   oracle - interpreting the source computes exactly Model.slp_tensor (the same tensor, entry for entry,
+   or an exception where the model has its error).  Proof = a symbolic run of the interpreter ([istep]),
+   each torch call rewritten by its [ext_*] lemma and the operation's lemma on tabulated data
+   (LemmasC07), down to a per-fibre equality with Model.slp_col / Model.lens_from_eos.  If the source is
+   edited so that this stops being true, this file stops compiling and the C07 check reports the broken
+   obligation. *)
 From Coq Require Import ZArith QArith List String Bool Arith Lia ZifyBool ZifyNat.
 From PV Require Import MiniPy.Syntax MiniPy.Interp MiniTorch.Ops MiniTorch.OpsC07 MiniTorch.LemmasC07.
 From PV Require Import Gen.C07Src Gen.C07LensSrc C07.SrcRun.
